@@ -842,6 +842,9 @@ func (g *gen) pickCmd() string {
 
 // makeScript derives script number idx of the run deterministically from the run seed.
 func makeScript(h *harness, seed uint64, idx int) *script {
+	if idx <= probeBase {
+		return makeProbe(h, probeBase-idx)
+	}
 	r := vlib.NewRand(seed).Fork(fmt.Sprint("script/", idx))
 	g := &gen{h: h, r: r}
 	s := &script{Idx: idx}
